@@ -43,7 +43,8 @@ SHADOWS = {'nested-shadow-kw': ('vk', 'def _inner(kwargs):\n    return %s\nretur
            'genexp-target-shadows-va': ('va', 'return list(%s for args in ((),))[0]'),
            'dictcomp-target-shadows-kw': ('vk', 'return {0: %s for kwargs in ({},)}[0]')}
 ROUTES = ('global', 'closure', 'closure-shadowing-global', 'attribute', 'self', 'param-partial', 'wraps')
-UNRESOLVABLE = ('missing-global', 'non-callable', 'unset-attribute')
+UNRESOLVABLE = ('missing-global', 'non-callable', 'unset-attribute',
+                'local-def-shadowing-global', 'local-lambda-shadowing-global')   # the callee is a local of the wrapper
 DECLARED = ('declared-function', 'declared-method', 'declared-method-dotted', 'declared-super', 'declared-apply-super')
 # expressions used as the first fixed positional argument of the forwarding call:
 # (production, text, star it taints, star the outer must own)
@@ -230,6 +231,7 @@ def draw(cfg):
         contexts = ('assign', 'loop-assign'); routes = ('global',); forms = ('pristine', 'absent'); taints = True
     elif group == 'unresolvable':
         routes = ('global',); forms = ('pristine', 'absent'); unres_on = True
+        contexts = ('return', 'assign', 'if', 'nested-def', 'lambda', 'listcomp', 'except-handler', 'loop-assign')
     elif group == 'full':
         taints = True
     elif group == 'declared':
@@ -268,6 +270,8 @@ def draw(cfg):
     else:
         route = routes[sym.pick(len(routes), 'route')] if len(routes) > 1 else routes[0]
     context = contexts[sym.pick(len(contexts), 'context')] if len(contexts) > 1 else contexts[0]
+    if p.argexpr is not None and p.argexpr[0] == 'arg-walrus-rebinds-args' and context == 'genexp-target-shadows-va':
+        p.argexpr = ARG_EXPRS[0]      # (a walrus may not rebind the comprehension's own iteration variable: SyntaxError)
     taint = None
     taint_after = False
     if taints and context in ('assign', 'loop-assign'):
@@ -401,6 +405,12 @@ def assemble(p, ospec, cspec, k, names, va_form, vk_form, route, context, taint,
     else:
         raise AssertionError(context)
 
+    if unres == 'local-def-shadowing-global':
+        body = callee_def + body
+    elif unres == 'local-lambda-shadowing-global':
+        body = 'callee = lambda %s: None\n' % cspec.deflist() + body
+    if unres in ('local-def-shadowing-global', 'local-lambda-shadowing-global'):
+        callee_def = 'def callee(zz_decoy, /, *, zz_other):\n    return None\n'     # a global of the same name
     odef = ospec.deflist()
     lines = [PRELUDE]
     if unres == 'non-callable':
